@@ -129,6 +129,9 @@ type Sim struct {
 
 	stalls      []*StallRule
 	StallsFired int
+	// ExternBeside counts goroutines started by un-instrumented code that made
+	// their first contact while the scheduled goroutine was still running.
+	ExternBeside int
 }
 
 // StallRule is a "slow party" fault: the Nth time (counting from 0) a
@@ -232,6 +235,18 @@ func (s *Sim) self() *G {
 		s.byGoid[id] = g
 		s.all = append(s.all, g)
 		s.hbFork(nil, g)
+		if r := s.last; r != nil && r.state == stRunning {
+			// The goroutine the scheduler released is still running while this
+			// one, started by un-instrumented code, reaches its first
+			// instrumented operation: the two ran side by side, outside the
+			// scheduler's control. Harmless only if they shared nothing in the
+			// meantime; a harness must park the spawner right after such a
+			// goroutine is started (see c44.go). A debugging aid: the count
+			// also includes the harmless case where the new goroutine merely
+			// got to its first operation before the spawner parked; what
+			// decides is the determinism self-test.
+			s.ExternBeside++
+		}
 	}
 	s.mu.Unlock()
 	return g
